@@ -36,7 +36,6 @@ def sampling_deme(mod, cls):
                 cl("count_matches_clock", "counted(self) - old(counted(self)) >= clock() - old(clock()) and clock() >= old(clock())", tags="C03"),
                 cl("invariant_kept", "SamplerDeme(self)")])
     refine(q + "run_metaepoch", A + "run_metaepoch",
-           requires=[cl("deme_invariant", "SamplerDeme(self)")],
            modifies=OWN_FRAME + USER_PROBLEM_FRAME,
            ensures=[cl("one_generation_per_metaepoch", "len(self._history[-1]) == 1", tags="C05 C06"),
                     cl("consulted_after_the_generation", "gsc_clock(tree) == clock()", tags="C05"),
